@@ -258,10 +258,19 @@ Definition len_le (cap : N) (d : dvalue) : bool :=
   | _ => true
   end.
 
+Definition int_le (cap : N) (d : dvalue) : bool :=
+  match d with
+  | DInteger z => (z <=? Z.of_N cap)%Z
+  | _ => true
+  end.
+
 Definition caps_ok (module : string) (d : dvalue) : bool :=
   forallb (fun e => match e with
                     | (m, p, cap) => if String.eqb m module then forallb (len_le cap) (d_reach p d) else true
-                    end) (collection_caps ++ bytes_caps).
+                    end) (collection_caps ++ bytes_caps)
+  && forallb (fun e => match e with
+                       | (m, p, cap) => if String.eqb m module then forallb (int_le cap) (d_reach p d) else true
+                       end) int_caps.
 
 (* ---- the case term *)
 Definition module_tree (module : string) : mtype :=
